@@ -1,4 +1,5 @@
 import DFV.Lemmas.C16Examples
+import DFV.Lemmas.C16Legacy
 /-!
 # C16 — VTK output puts each value in the grid cell a VTK reader finds at that position
 
@@ -361,6 +362,47 @@ theorem text_rounds_valuewise (rnd : Rat → Rat) (g : Grid) (ax : Nat) (j : Nat
     simpa [List.getD_eq_getElem?_getD, List.getElem?_eq_getElem hax] using hj
   rw [List.getElem?_eq_getElem hj']
   simp
+
+/-! ## legacy point-data files -/
+
+/-- **`legacy_points`.**  A file of the old layout — header, three coordinate blocks with
+`N a` points `o a + j·c a` on axis `a`, anything without coordinate headers or a `VECTORS`
+line in between, the data marker, one line per point — is read as a field with `N a` cells
+per axis, each **centred on a point** (`o a + j·ce`; `ce` is the spacing, or the 1 nm default
+on an axis with a single point), no subregions, everything valid, and **one value per cell**:
+cell `(i, j, k)` holds data line `i + N₀·(j + N₁·k)`. -/
+theorem legacy_points (pre mid post : List LLine) (N : Nat → Nat) (o c : Nat → Rat) (vec : Bool)
+    (rows : List (List Rat))
+    (hpre : Quiet pre) (hmid : Quiet mid) (hpost : ∀ x ∈ post, ∀ k, x ≠ .coords k)
+    (hsc : vec = false → (∀ x ∈ pre ++ mid, x ≠ .scalars) ∧ ∀ x ∈ post, x ≠ .vectors)
+    (hN : ∀ a, a < 3 → 1 ≤ N a) (hc : ∀ a, a < 3 → 0 < c a)
+    (hrows : rows.length = natProd [N 0, N 1, N 2]) (hrow : ∀ r ∈ rows, r.length = if vec then 3 else 1) :
+    ∃ f', legacyRead (legacyFile pre mid post N (fun a => tab (N a) fun j => o a + (j : Rat) * c a) vec rows) none = .ok f' ∧
+      f'.mesh.n = [N 0, N 1, N 2] ∧ f'.mesh.subs = [] ∧ f'.nvdim = (if vec then 3 else 1) ∧
+      (∀ a, a < 3 → ∀ j : Nat, f'.mesh.centreAx a (j : Int) = o a + (j : Rat) * legCe N c a) ∧
+      (∀ idx, inRange [N 0, N 1, N 2] idx = true →
+        f'.data.get idx = rows.getD (flatF [N 0, N 1, N 2] idx) [] ∧ f'.valid.get idx = true) := by
+  obtain ⟨f', h1, h2, h3, h4, h5, h6, h7⟩ :=
+    legacyRead_file pre mid post N o c vec rows hpre hmid hpost hsc hN hc hrows hrow
+  refine ⟨f', h1, h2, h3, h6, ?_, h7⟩
+  intro a ha j
+  apply legacy_centre f'.mesh a (N a) (o a) (legCe N c a) (hN a ha)
+  · have : a = 0 ∨ a = 1 ∨ a = 2 := by omega
+    rcases this with rfl | rfl | rfl <;> simp [Mesh.nAt, h2]
+  · unfold Region.lo; rw [h4, getD_tab _ _ _ _ ha]
+  · unfold Region.hi; rw [h5, getD_tab _ _ _ _ ha]
+
+/-- the hypotheses of `legacy_points` are met by a concrete vector file with per-component
+blocks (3 × 1 × 2 points) -/
+example : Quiet [LLine.alpha, .alpha, .alpha, .alpha, .alpha] ∧
+    Quiet [LLine.alpha, .scalars, .alpha, .nums [1], .nums [2]] := by
+  constructor <;> intro x hx <;> simp at hx <;> rcases hx with rfl | rfl | rfl | rfl | rfl <;> simp
+
+example : ((legacyRead (legacyFile [.alpha, .alpha] [.alpha] [] (fun a => [3, 1, 2].getD a 0)
+      (fun a => tab ([3, 1, 2].getD a 0) fun j => ([0, 5, -1].getD a 0 : Rat) + (j : Rat) * [1/2, 1, 2].getD a 0) true
+      [[1, 0, 0], [2, 0, 0], [3, 0, 0], [4, 0, 0], [5, 0, 0], [6, 0, 0]]) none).toOption.map
+        fun f => (f.mesh.n, f.mesh.region.pmin, f.data.get [2, 0, 1], f.vdims)) =
+    some ([3, 1, 2], [-1/4, 5 - nm1 / 2, -2], [6, 0, 0], some ["x", "y", "z"]) := by decide +kernel
 
 /-! ## Non-vacuity and the label findings -/
 
